@@ -185,7 +185,10 @@ def get_proxy_info(
     if value:
         proxy = urlparse(value)
         auth = (
-            (unquote(proxy.username), unquote(proxy.password))
+            (
+                unquote(proxy.username),
+                unquote(proxy.password) if proxy.password is not None else None,
+            )
             if proxy.username
             else None
         )
